@@ -187,7 +187,7 @@ const (
 	// wraps beyond that and the peer cannot decode the SACK at all.
 	maxTSNOffset = 32704
 	// maxHeartbeatsOutstanding bounds the on-demand heartbeats remembered while unanswered.
-	maxHeartbeatsOutstanding = 16
+	maxHeartbeatsOutstanding = 1024
 	// maxReconfigRequests is the maximum number of reconfig requests we will keep outstanding.
 	maxReconfigRequests = 1000
 
@@ -5468,10 +5468,13 @@ func (a *Association) sendActiveHeartbeatLocked() {
 		a.heartbeatsOutstanding = map[uint64]struct{}{}
 	}
 	if len(a.heartbeatsOutstanding) >= maxHeartbeatsOutstanding {
-		// unanswered probes are not worth remembering for ever
+		// unanswered probes are not worth remembering for ever; the oldest one goes,
+		// the answers to the more recent ones may still be on their way
+		oldest := uint64(math.MaxUint64)
 		for k := range a.heartbeatsOutstanding {
-			delete(a.heartbeatsOutstanding, k)
+			oldest = min(oldest, k)
 		}
+		delete(a.heartbeatsOutstanding, oldest)
 	}
 	a.heartbeatsOutstanding[uint64(now)] = struct{}{} //nolint:gosec // see above
 
